@@ -294,7 +294,7 @@ HARNESSES = [
             pattern="P1 + P4 (wall clock)", requires=["run", "cool-down-refusal"], outside=OUT, selfcheck=False),
     Harness("H14c", h14a, quick=dict(n_streams=2, lengths=(1, 2), raise_in_callback=True), pattern="control-flow obligation on every path",
             requires=["run-ended-with-exception"], outside=OUT, selfcheck=False),
-    Harness("H14d", h14d, quick=dict(n_updates=2), thorough=dict(n_updates=3), pattern="P1 kernel-with-oracle",
+    Harness("H14d", h14d, quick=dict(n_updates=3), thorough=dict(n_updates=4), pattern="P1 kernel-with-oracle",
             clock_modules=("flumine.streams.historicalstream",), requires=["filters", "filtered-out"], outside=OUT, selfcheck=False),
 ]
 META = {"assumptions": ["the data feed is a stub generator per stream (environment); publish times integer milliseconds"]}
